@@ -20,7 +20,7 @@ go test -vet=off -count=1 -run "^$TESTNAME\$" ./$PKG/ >/tmp/seedc-$ID.a 2>&1; A=
 tail -3 /tmp/seedc-$ID.a
 echo "== apply patch"
 git apply $SRC/patch.diff || git apply -3 $SRC/patch.diff || { echo "PATCH DOES NOT APPLY"; exit 3; }
-git diff --stat -- . ':!*_test.go' | tail -3
+git diff HEAD --stat -- . ':!*_test.go' | tail -3
 echo "== demo with patch (must fail)"
 go test -vet=off -count=1 -run "^$TESTNAME\$" ./$PKG/ >/tmp/seedc-$ID.b 2>&1; B=$?
 tail -5 /tmp/seedc-$ID.b
@@ -30,7 +30,7 @@ VERIF_REPO=$WT /verif/tools/baseline_off.py; C=$?
 echo "RESULT demo_without=$A demo_with=$B baseline=$C"
 if [ $A -eq 0 ] && [ $B -ne 0 ] && [ $C -eq 0 ]; then
   mkdir -p /verif/seeded/$ID
-  git diff -- . ':!*_test.go' > /verif/seeded/$ID/patch.diff
+  git diff HEAD -- . ':!*_test.go' > /verif/seeded/$ID/patch.diff
   cp $SRC/demo_test.go /verif/seeded/$ID/demo_test.go
   cp $SRC/notes.md /verif/seeded/$ID/notes.md 2>/dev/null
   echo CONFIRMED
